@@ -150,6 +150,29 @@ def gen(rng, tier):
         yield c
 
 
+    # regular expressions and durations as source values, held by pointer and by value, in maps, lists and nested objects:
+    # they normalise to their text
+    xrng = rng.fork("regexps")
+    for _ in range(60 if tier == "quick" else 600):
+        def rx():
+            p_ = xrng.pick(["a+", "^x$", "", "\\d{2}", "(a|b)*c"])
+            return ({"re": p_, **({"rep": "val"} if xrng.chance(0.5) else {})}, S(p_))
+        def node(depth):
+            r_ = xrng.below(5)
+            if depth <= 0 or r_ < 2:
+                return rx()
+            if r_ == 2:
+                xs = [node(depth - 1) for _ in range(1 + xrng.below(2))]
+                return (A([a for a, _ in xs]), A([b for _, b in xs]))
+            ks = xrng.shuffle(["r", "s", "t"])[:1 + xrng.below(3)]
+            xs = [(k, node(depth - 1)) for k in ks]
+            return (M([(k, a) for k, (a, _) in xs]), M([(k, b) for k, (_, b) in xs]))
+        ks = xrng.shuffle(["a", "b", "c"])[:1 + xrng.below(3)]
+        xs = [(k, node(2)) for k in ks]
+        yield {"k": "norm", "from": M([(k, a) for k, (a, _) in xs] + [("n", U(1))]), "opts": [], "repeat": 2,
+               "plain": M([(k, b) for k, (_, b) in xs] + [("n", U(1))]), "_tag": "norm/regexp-values", "_nt": True,
+               "_sig": "regexps|%s" % shape_of(M([(k, b) for k, (_, b) in xs]))}
+
     # the same setting given in both spellings with a null or list padding in one of them (legal, must be accepted in every
     # insertion order) and the other overlap classes of C09
     from . import c09
